@@ -222,7 +222,7 @@ void lemma_add_compound_data(void)
 #ifndef SHAPE
 #define SHAPE 0
 #endif
-static const char *const g_shapes[] = { "A", "AB", "B3A", "AB2A", "(AB)2", "AbCdB3", "((A))", "A(AB)", "C(BA)", "A(BC)2", "(AB)(CA)3", "Ab2(CdA)", /*THOROUGH*/ "B(A(CD)2)3", "D(CA)B(DA)" };
+static const char *const g_shapes[] = { "A", "AB", "B3A", "AB2A", "(AB)2", "AbCdB3", "((A))", "A(AB)", "C(BA)", "A(BC)2", "(AB)(CA)3", "Ab2(CdA)", "A2.5(B0.5A)4", /*THOROUGH*/ "B(A(CD)2)3", "D(CA)B(DA)" };
 int g_z[4], g_known[4], g_zero_seen, g_unknown_seen;
 static struct MendelElement g_me;
 void *bsearch(const void *key, const void *base, size_t n, size_t sz, int (*cmp)(const void *, const void *))
@@ -256,6 +256,20 @@ char *strndup(const char *s, size_t n)
   d[l] = 0;
   return d;
 }
+#ifdef CONCRETE_SUBSCRIPTS
+/* counts lemma: strtod converts the short numerals of the shape list exactly (digits, at most one dot; every value used
+ * is a dyadic rational, so digit accumulation and the final division are exact)                                      */
+double strtod(const char *s, char **end)
+{
+  double v = 0.0, scale = 1.0; int i, dot = 0;
+  __CPROVER_assert(g_locale == 0, "strtod runs under the C numeric locale");
+  for (i = 0; s[i]; i++) { if (s[i] == '.') { dot = 1; continue; } v = v * 10.0 + (double)(s[i] - '0'); if (dot) scale = scale * 10.0; }
+  *end = (char *)s + i;
+  return v / scale;
+}
+struct occ { int letter; double w; };
+static const struct occ g_occ[] = OCC;   /* every symbol occurrence of the shape with its multiplier: generated by an independent recursive-descent evaluator (props/C07.py) */
+#else
 double strtod(const char *s, char **end)
 {
   double v;
@@ -265,6 +279,7 @@ double strtod(const char *s, char **end)
   *end = (char *)s + strlen(s);
   return v;
 }
+#endif
 void lemma_scanner_shape(void)
 {
   char buf[16];
@@ -290,6 +305,13 @@ void lemma_scanner_shape(void)
       __CPROVER_assert(ca.singleElements[i].nAtoms > 0.0, "atom counts are positive");   /* shapes without subscripts only: products of symbolic subscripts do not finish */
 #endif
     }
+#ifdef CONCRETE_SUBSCRIPTS
+    for (i = 0; i < 4; i++) if (i < ca.nElements) {
+      double expect = 0.0; int o;
+      for (o = 0; o < NOCC; o++) if (g_z[g_occ[o].letter] == ca.singleElements[i].Element) expect += g_occ[o].w;
+      __CPROVER_assert(ca.singleElements[i].nAtoms == expect, "atom count of every element = the algebraic expansion of the formula (sum over its occurrences of the product of the enclosing multipliers)");
+    }
+#endif
     __CPROVER_assert(ca.nElements <= 4, "no more elements than distinct symbols");
     for (k = 0; k < 4; k++) if (used[k]) { int in = 0; for (i = 0; i < 4; i++) if (i < ca.nElements && ca.singleElements[i].Element == g_z[k]) in = 1; __CPROVER_assert(in, "every element of the formula occurs in the result"); }
     __CPROVER_assert(0, "CANARY accepted shape");
